@@ -134,6 +134,18 @@ func (g *c16Gen) andOr(d int) *Node {
 		}
 		ch[i] = g.operand(d)
 	}
+	if !allBare && g.r.Intn(8) == 0 {
+		// one operand is a constant sub-expression that fails (at compile time, when folded; at run time, when reached):
+		// it is an operand like any other, its siblings are ordered by their costs all the same
+		t := g.nextTag()
+		bad := []*Node{
+			Op("in", TBool, Lit(t), Lit([]string{"a", "b"})),
+			Op("spos", TBool, Lit("not a number")),
+			Op("=", TBool, Lit([]int64{t, 1}), Lit([]int64{t, 1})),
+			Op(">", TBool, Lit("s"), Lit(t)),
+		}[g.r.Intn(4)]
+		ch[g.r.Intn(len(ch))] = bad
+	}
 	return Op([]string{"and", "or", "&&", "||", "&", "|"}[g.r.Intn(6)], TBool, ch...)
 }
 
